@@ -537,7 +537,9 @@ def pad(t, shape, dim=None, fill_value=0):
 
     if fill_value != 0:
         # The padded region is not separable: pad with zeros, then add the constant outside the original box
-        box = pad(tn.ones(t.shape), shape, dim=dim)
+        ref = t.cores[0]
+        ones = tn.Tensor([torch.ones(1, sh, 1, dtype=ref.dtype, device=ref.device) for sh in t.shape])
+        box = pad(ones, shape, dim=dim)
         return pad(t, shape, dim=dim) + fill_value * (1 - box)
 
     t = t.clone()
